@@ -70,3 +70,9 @@ def _versions_app() -> str:
 
 
 const('VERSIONS_APP', _versions_app())
+
+external('abspath_of', [('p', 'str')], 'str', axioms=[({'p': 'str'}, 'is_abs(abspath_of(p))')], note='os.path.abspath(p): an absolute path (independent of any loader search path)')
+external('is_abs', [('p', 'str')], 'bool', note='os.path.isabs(p)')
+external('output_language', [('c', 'Config')], 'str', note='Config.output_language')
+external('mp_path', [('m', 'ModulePath')], 'str', note='ModulePath.path')
+external('mp_to_file', [('path', 'str'), ('ext', 'str')], 'str', note='module_path_to_filepath(path, extension)')
